@@ -313,6 +313,11 @@ class LockDiscipline:
                 raise Violation('timer-under-payments-lock', {'task': ev[2]}, 'lock.discipline', 'timer')
             if ev[0] == 'mpsc_send_blocked' and 'payments' in ev[3]:
                 raise Violation('blocking-send-under-lock', {'task': ev[1], 'channel': ev[2]}, 'lock.discipline', 'send')
+            if ev[0] == 'lock_wait' and 'payments' in ev[3] and ev[2] != 'payments':
+                # waiting for another mutex while holding the payments lock: whoever holds that mutex (across an await of
+                # its own, or it could not be observed held) now decides when every other hash may proceed
+                raise Violation('lock-wait-under-payments-lock', {'task': ev[1], 'waits_for': ev[2], 'held_by_task': ev[4]},
+                                'lock.discipline', 'nested-lock')
 
 class NoFailWhileLive(Decisions):
     """C02: a trampoline HTLC is failed only when no part is pending/complete and no pay is running
